@@ -497,6 +497,8 @@ impl<'a, T> ChordsV2<'a, T> {
                     )
             };
             match completed_chord {
+                // The loop above may already have activated this very chord.
+                Some(_) if self.active_chords.len() > prev_active_chords_len => {}
                 Some(cch) => {
                     let ach =
                         get_active_chord(cch, since, self.next_coord(), relevant_release_found);
